@@ -27,7 +27,7 @@ func (prop) Rule() string {
 func (prop) Gen(r *core.Rand, tier string) []core.Case {
 	nSmall, nMed, nBig := 150, 12, 5
 	if tier == "thorough" {
-		nSmall, nMed, nBig = 1800, 150, 45
+		nSmall, nMed, nBig = 800, 60, 16
 	}
 	C := fc.C
 	cs := []core.Case{
